@@ -38,6 +38,12 @@ func F(x int) int { return 3*x + 1 }
 // DoVal is the value function i of the do scenarios returns.
 func DoVal(i int) int { return 10 + i }
 
+// SelArity is the number of channel arguments of a select-form wrapper ("JoinV5" ↦ 5).
+func SelArity(variant string) int {
+	n, _ := strconv.Atoi(strings.TrimPrefix(variant, "JoinV"))
+	return n
+}
+
 // FmapCh scenarios: an input item v >= NilFrom makes the channel-valued function return nil; otherwise it
 // returns the channel tagged v.  FCh is that function on tags (the Lean driver uses the same one).
 const NilFrom = 1000
@@ -121,9 +127,9 @@ var Variants = map[string][]string{
 	"dup":      {"DupR", "DupB"},
 	"joincc":   {"JoinCC", "JoinCCb"},
 	"joinsc":   {"JoinSC", "JoinSCb"},
-	"joinsel":  {"JoinV2", "JoinV3"},
+	"joinsel":  {"JoinV2", "JoinV3", "JoinV5", "JoinV6"},
 	"pipeline": {"Pipeline"},
-	"do":       {"Do2", "Do3", "Do4", "Do2b", "Do3b"},
+	"do":       {"Do2", "Do3", "Do4", "Do2b", "Do3b", "Do3m"},
 }
 
 // ChannelSystems are the systems of C19.
@@ -134,10 +140,7 @@ func inputsOf(sys, variant string, r *rand.Rand, maxIn int) int {
 	case "fmap", "dup", "fmapch":
 		return 1
 	case "joinsel":
-		if variant == "JoinV3" {
-			return 3
-		}
-		return 2
+		return SelArity(variant)
 	case "joincc", "joinsc", "pipeline":
 		return r.Intn(maxIn + 1) // 0 inputs is legal: the output is closed at once
 	}
@@ -153,6 +156,8 @@ func RandomConfig(sys string, r *rand.Rand, maxIn, maxItems, maxCap int) Config 
 		c.Variant = "Do" + strconv.Itoa(c.N)
 		if c.N < 4 && r.Intn(2) == 0 {
 			c.Variant += "b"
+		} else if c.N == 3 && r.Intn(2) == 0 {
+			c.Variant = "Do3m"
 		}
 		c.Errs = make([]int, c.N)
 		for i := range c.Errs {
@@ -200,10 +205,7 @@ func SmallConfigs(sys string, inputs, items, maxCap int) []Config {
 		case "fmap", "dup", "fmapch":
 			n = 1
 		case "joinsel":
-			n = 2
-			if variant == "JoinV3" {
-				n = 3
-			}
+			n = SelArity(variant)
 			if n != inputs {
 				continue
 			}
@@ -263,6 +265,9 @@ func DoConfigs(n int) []Config {
 	if n < 4 {
 		variants = append(variants, "Do"+strconv.Itoa(n)+"b") // the Do of the package whose first Do has another arity
 	}
+	if n == 3 {
+		variants = append(variants, "Do3m") // functions of different result types (the others are all func() (int, error))
+	}
 	var out []Config
 	for _, variant := range variants {
 		for mask := 0; mask < 1<<n; mask++ {
@@ -288,7 +293,8 @@ func ZeroConfigs(sys string) []Config {
 	case "fmap", "dup", "fmapch":
 		return SmallConfigs(sys, 1, 0, 2)
 	case "joinsel":
-		return append(SmallConfigs(sys, 2, 0, 1), SmallConfigs(sys, 3, 0, 1)...)
+		out := append(SmallConfigs(sys, 2, 0, 1), SmallConfigs(sys, 3, 0, 1)...)
+		return append(out, append(SmallConfigs(sys, 5, 0, 0), SmallConfigs(sys, 6, 0, 0)...)...)
 	}
 	return SmallConfigs(sys, 0, 0, 2)
 }
